@@ -119,6 +119,65 @@ package network
 //@   ensures as-defined: r0.Request != nil ==> fresh(r0.Request) && r0.Request.Method == method && r0.Request.URL != nil && urlString(r0.Request.URL) == givenURL && (header != nil ==> r0.Request.Header == header)
 //@   ensures answered: r0.Request != nil && r0.Err == nil ==> r0.Response != nil && !untyped(r0.Response.Body)
 
+// the verb helpers: one request with that verb, that URL, no caller header (and, for the body verbs, that body and
+// Content-Type), under the instance's timeout context
+//@ define VERB_SENT(m) = r0 != nil && fresh(r0) && (r0.Request == nil ==> tr_len == old(tr_len) && r0.Err != nil) && (r0.Request != nil ==> tr_len == old(tr_len)+1 && tr_kind[old(tr_len)] == 2 && tr_fn[old(tr_len)] == method("http.Client.Do") && tr_obj[old(tr_len)] == simpleHTTPSelf.client && tr_arg[old(tr_len)] == boxed(r0.Request) && r0.Err == tr_err[old(tr_len)] && r0.Request.Method == m && r0.Request.URL != nil && urlString(r0.Request.URL) == givenURL)
+//@ func (SimpleHTTPDef).Get
+//@   prop C17
+//@   opt callbacks=effectful
+//@   opt effects=trace
+//@   requires simpleHTTPSelf != nil && simpleHTTPSelf.client != nil
+//@   ensures one-get: VERB_SENT("GET")
+//@ func (SimpleHTTPDef).Head
+//@   prop C17
+//@   opt callbacks=effectful
+//@   opt effects=trace
+//@   requires simpleHTTPSelf != nil && simpleHTTPSelf.client != nil
+//@   ensures one-head: VERB_SENT("HEAD")
+//@ func (SimpleHTTPDef).Options
+//@   prop C17
+//@   opt callbacks=effectful
+//@   opt effects=trace
+//@   requires simpleHTTPSelf != nil && simpleHTTPSelf.client != nil
+//@   ensures one-options: VERB_SENT("OPTIONS")
+//@ func (SimpleHTTPDef).Delete
+//@   prop C17
+//@   opt callbacks=effectful
+//@   opt effects=trace
+//@   requires simpleHTTPSelf != nil && simpleHTTPSelf.client != nil
+//@   ensures one-delete: VERB_SENT("DELETE")
+
+//@ define VERB_SENT_BODY(m) = VERB_SENT(m) && (r0.Request != nil ==> r0.Request.Body == reqBodyOf(body) && (contentType != "" ==> r0.Request.Header != nil && has(r0.Request.Header, "Content-Type")))
+//@ func (SimpleHTTPDef).Post
+//@   prop C17
+//@   opt callbacks=effectful
+//@   opt effects=trace
+//@   requires simpleHTTPSelf != nil && simpleHTTPSelf.client != nil
+//@   ensures one-post: VERB_SENT_BODY("POST")
+//@ func (SimpleHTTPDef).Put
+//@   prop C17
+//@   opt callbacks=effectful
+//@   opt effects=trace
+//@   requires simpleHTTPSelf != nil && simpleHTTPSelf.client != nil
+//@   ensures one-put: VERB_SENT_BODY("PUT")
+//@ func (SimpleHTTPDef).Patch
+//@   prop C17
+//@   opt callbacks=effectful
+//@   opt effects=trace
+//@   requires simpleHTTPSelf != nil && simpleHTTPSelf.client != nil
+//@   ensures one-patch: VERB_SENT_BODY("PATCH")
+
+//@ func (SimpleAPIDef).GetSimpleHTTP
+//@   prop C17
+//@   requires simpleAPISelf != nil
+//@   ensures def: r0 == simpleAPISelf.simpleHTTP
+//@ func NewSimpleAPIWithSimpleHTTP
+//@   prop C17
+//@   ensures made: r0 != nil && fresh(r0) && r0.simpleHTTP == simpleHTTP && r0.DefaultHeader == nil
+//@ func NewSimpleAPI
+//@   prop C17
+//@   ensures made: r0 != nil && fresh(r0) && r0.simpleHTTP != nil && fresh(r0.simpleHTTP) && r0.DefaultHeader == nil
+
 //@ func (SimpleHTTPDef).DoNewRequestWithBodyOptions
 //@   prop C17
 //@   opt callbacks=effectful
